@@ -1,6 +1,8 @@
 import Model.C20
 import Generated.C20
 import Proofs.C20
+import Model.C20X
+import Proofs.C20X
 /-!
 # C20 — property theorems (statements only; helper lemmas live in `Proofs/C20.lean`)
 
@@ -198,6 +200,107 @@ theorem empty_identifier_witness :
     chain [(.org, [])] [.http [] []] 0 = .error (.noOrgID, 0) ∧
     hopClean [] (.grpc none []) = true ∧ hopClean [] (.http [] []) = false := by
   decide
+
+/-! ### Interceptor chains (Model/C20X.lean): every real entry point, tunnelling through httpgrpc. -/
+
+/-- Any chain of stages — HTTP hops received by `ExtractOrgIDFromHTTPRequest`,
+`tenant.ExtractTenantIDFromHTTPRequest` or `AuthenticateUser`; gRPC hops sent by
+`InjectIntoGRPCRequest` or the unary / stream client interceptor and received by
+`ExtractFromGRPCRequest` or the unary / stream server interceptor; HTTP requests tunnelled through
+gRPC by httpgrpc — of any length, any pre-existing carrier values, any receiver contexts: if it
+succeeds, the identifier at the end is the one placed at the start. Induction on the chain. -/
+theorem ichain_identity (c : Ctx) (id : Bytes) (hc : extractOrgID c = .ok id) (ss : List Stage) (i : Nat) (c' : Ctx)
+    (h : ichain c ss i = .ok c') : extractOrgID c' = .ok id :=
+  PfC20.ichain_identity c id hc ss i c' h
+
+/-- ... and it arrives exactly when every stage is clean (no conflicting carrier value; for the
+single-tenant HTTP entry point the identifier must also denote one valid tenant). -/
+theorem ichain_succeeds_iff (c : Ctx) (id : Bytes) (hc : extractOrgID c = .ok id) (ss : List Stage) (i : Nat) :
+    (∃ c', ichain c ss i = .ok c' ∧ extractOrgID c' = .ok id) ↔ ∀ s ∈ ss, stageClean id s = true := by
+  rw [← PfC20.ichain_succeeds_iff c id hc ss i]
+  constructor
+  · rintro ⟨c', h, _⟩; exact ⟨c', h⟩
+  · rintro ⟨c', h⟩; exact ⟨c', h, PfC20.ichain_identity c id hc ss i c' h⟩
+
+/-- a failure is reported at the first stage that is not clean. -/
+theorem ichain_fails_at_first_unclean (c : Ctx) (id : Bytes) (hc : extractOrgID c = .ok id) (ss : List Stage) (i : Nat)
+    (e : Err) (n : Nat) (h : ichain c ss i = .error (e, n)) :
+    ∃ j, n = i + j ∧ (∀ s ∈ ss.take j, stageClean id s = true) ∧ ∃ s, ss[j]? = some s ∧ stageClean id s = false :=
+  PfC20.ichain_fails_at c id hc ss i e n h
+
+/-- no default through any entry point: from a context without identifier every stage, hence every
+non-empty chain, fails with "no org id" at its first stage. -/
+theorem ichain_no_default (c : Ctx) (hc : c.value .org = none) (s : Stage) (ss : List Stage) (i : Nat) :
+    stage c s = .error .noOrgID ∧ ichain c (s :: ss) i = .error (.noOrgID, i) := by
+  have h := PfC20.stage_no_default c hc s
+  exact ⟨h, by simp [ichain, h]⟩
+
+/-- one stage, exactly: clean → the new context is some receiver context with the identifier bound on
+top; not clean → an error. -/
+theorem stage_spec (c : Ctx) (id : Bytes) (hc : extractOrgID c = .ok id) (s : Stage) :
+    (stageClean id s = true → ∃ recv, stage c s = .ok (injectOrgID recv id)) ∧
+    (stageClean id s = false → ∃ e, stage c s = .error e) :=
+  PfC20.stage_spec c id hc s
+
+/-- the interceptors add nothing to the plain functions: whichever of the nine sender/receiver entry
+point combinations performs a gRPC hop, the result is that of `hop`. -/
+theorem grpc_interceptors_transparent (c : Ctx) (ex : Option (List Bytes)) (recv : Ctx) (s : GSend) (r : GRecv) :
+    stage c (.grpc ex recv s r) = hop c (.grpc ex recv) :=
+  PfC20.stage_grpc_eq_hop c ex recv s r
+
+/-- the interceptors run their continuation (invoker / streamer / handler / next) exactly when
+injection / extraction succeeds, on the context carrying the identifier; otherwise they return the
+error and the continuation's result is not used — for EVERY continuation `k`. -/
+theorem interceptors_guard_continuation {α} (c recv : Ctx) (md : Option (List Bytes)) (vals hdr : List Bytes)
+    (k2 : Ctx → List Bytes → Except Err α) (k1 : Ctx → Except Err α) :
+    ((∀ e, injectGRPC c md = .error e → clientInterceptor c md k2 = .error e) ∧
+     (∀ v, injectGRPC c md = .ok v → clientInterceptor c md k2 = k2 c v)) ∧
+    ((vals.length ≠ 1 → serverInterceptor recv vals k1 = .error .noOrgID) ∧
+     (∀ x, vals = [x] → serverInterceptor recv vals k1 = k1 (injectOrgID recv x))) ∧
+    ((headerGet hdr = [] → authenticateUser recv hdr k2 = .error .noOrgID) ∧
+     (headerGet hdr ≠ [] → authenticateUser recv hdr k2 = k2 (injectOrgID recv (headerGet hdr)) hdr)) :=
+  ⟨PfC20.clientInterceptor_spec c md k2, PfC20.serverInterceptor_spec recv vals k1, PfC20.authenticateUser_spec recv hdr k2⟩
+
+/-- tunnelling (httpgrpc): the identifier of the request's CONTEXT travels in the gRPC metadata, the
+header is copied as it is, and the inner handler authenticates from the HEADER on top of the gRPC
+server context. -/
+theorem tunnel_spec (c : Ctx) (id : Bytes) (hc : extractOrgID c = .ok id) (h : List Bytes) (recv : Ctx) (inner : HRecv) :
+    tunnel c h recv inner = recvHTTP inner (injectOrgID recv id) h :=
+  PfC20.tunnel_of c id hc h recv inner
+
+/-- ... so a request whose header was NOT injected from its context (header `b`, context `a`)
+arrives as `b`: behind a tunnel the header wins over the context; and a context without identifier
+cannot be tunnelled at all even when the header holds one (the client interceptor refuses). -/
+theorem tunnel_header_wins_witness :
+    (tunnel [(.org, [97])] [[98]] [] .auth).map extractOrgID = .ok (.ok [98]) ∧
+    tunnel [] [[98]] [] .auth = .error .noOrgID ∧
+    tunnel [(.org, [97])] [] [] .auth = .error .noOrgID := by
+  decide
+
+/-- the two context keys of user/id.go do not interfere, and the user id does NOT travel with the
+org id: after any stage the user id is the receiving side's own. -/
+theorem user_id_independent (c : Ctx) (o u : Bytes) (s : Stage) (c' : Ctx) (h : stage c s = .ok c') :
+    extractOrgID (injectUserID c u) = extractOrgID c ∧ extractUserID (injectOrgID c o) = extractUserID c ∧
+    extractUserID (injectUserID c u) = .ok u ∧
+    extractUserID c' = extractUserID (match s with | .http _ recv _ => recv | .grpc _ recv _ _ => recv | .httpgrpc _ recv _ => recv) :=
+  ⟨PfC20.org_after_injectUser c u, PfC20.user_after_injectOrg c o, PfC20.user_extract_inject c u, PfC20.stage_user c s c' h⟩
+
+/-- `LogWith` appends exactly the identifiers the context holds (user id, then org id) and nothing
+for a missing one. -/
+theorem logWith_spec (c : Ctx) (kvs : List (String × Bytes)) :
+    logWith c kvs = kvs ++ (match c.value .user with | some u => [("userID", u)] | none => [])
+      ++ (match c.value .org with | some o => [("orgID", o)] | none => []) :=
+  PfC20.logWith_spec c kvs
+
+-- non-vacuity for the interceptor-chain theorems: a clean chain over all three kinds of stage
+example : (ichain [(.org, [97])] [.http [] [] .tenant, .grpc none [(.org, [120])] .stream .unary, .httpgrpc [[97]] [(.org, [120])] .auth,
+    .grpc (some [[97]]) [] .unary .stream] 0).map extractOrgID = .ok (.ok [97]) := by decide
+example : ∀ s ∈ [Stage.http [] [] .tenant, .grpc none [(.org, [120])] .stream .unary, .httpgrpc [[97]] [(.org, [120])] .auth,
+    .grpc (some [[97]]) [] .unary .stream], stageClean [97] s = true := by decide
+-- "a|b" passes the plain receiver but is refused by the single-tenant entry point, at stage 1
+example : ichain [(.org, [97, 124, 98])] [.http [] [] .auth, .httpgrpc [] [] .tenant] 0 = .error (.tooMany, 1) := by decide
+example : stage [(.user, [117])] (.grpc none [] .unary .unary) = .error .noOrgID := by decide
+example : logWith [(.org, [97]), (.user, [117])] [] = [("userID", [117]), ("orgID", [97])] := by decide
 
 /-! ### Non-vacuity: the hypotheses above are met by concrete, non-trivial inputs. -/
 
